@@ -9,7 +9,9 @@ def run(res):
         model_files=["theories/Client/Lifecycle.v"],
         theorem_note="Properties/C14.v (repaired protocol, all n, k, sides, modes, schedules): C14_no_deadlock, C14_all_runs_terminate, "
                      "C14_run_extends_to_final, C14_terminal_is_clean (Q returns, AwaitConverged returns, Close/Reset return, sender and "
-                     "receiver gone, Done signalled, fresh after Reset+Connect), C14_await_decision, C14_await_returns_error; "
+                     "receiver gone, Done signalled, fresh after Reset+Connect), C14_await_decision, C14_await_returns_error; the end of the stream as the sender sees it, FEnd = the server "
+                     "ends the RPC with status OK (any variant): C14_send_failure_recorded, C14_sender_exit_reasons, C14_clean_end_noticed_by_idle_sender, "
+                     "C14_clean_end_can_go_unnoticed (a sender that is not idle misses a clean end: nothing is recorded - the code as it is); "
                      "for the tree: C14_q_blocks_refuted; for the DESIGN.md patch alone: C14_select_only_refuted",
         trusted=["Coq 8.16.1 kernel + vm_compute",
                  "hand-written LTS Client/Lifecycle.v of the goroutine protocol in client/gribiclient.go (threads, modifyCh, sendExitCh, "
@@ -19,7 +21,11 @@ def run(res):
         assumptions=["PARTIAL claim: the Go scheduler, the sync.RWMutex writer preference and gRPC's stream semantics are runtime facts "
                      "taken from their documentation; the theorems are about the model, tied to the code by the outcome comparison",
                      "stream abstraction: one response per request; a failed Send breaks Recv and vice versa; after CloseSend the server "
-                     "ends the RPC once everything is answered; Send itself does not block for ever",
+                     "ends the RPC once everything is answered; Send itself does not block for ever; a clean end (status OK) of the RPC is "
+                     "io.EOF for Recv (not an error for the receiver) and io.EOF for every later Send (a send error)",
+                     "clean-end scenarios: the harness lets the server end the RPC only once the sender is parked in its channel receive "
+                     "(goroutine stacks) - with a busy sender the code as it is can miss the end (C14_clean_end_can_go_unnoticed, reproduced once on /repo) - "
+                     "and asks for the recorded error only when at least one further request is queued",
                      "Close / Reset are called after the burst of Q calls and AwaitConverged have returned (the property's 'followed by')",
                      "a hang is a watchdog verdict (1.2 s without progress on operations that take microseconds)",
                      "the lock-order scenario (StartSending concurrent with AwaitConverged, no fault) is checked by the harness oracle only; "
